@@ -120,6 +120,26 @@ pub proof fn lemma_surv_again(a: Seq<f64>, b: Seq<f64>, h: f64, s: real, k: int)
         assert(surv_sum(a, h, k - 1) / s + xa / s == (surv_sum(a, h, k - 1) + xa) / s) by(nonlinear_arith) requires s != 0real;
     }
 }
+pub proof fn lemma_surv_all(a: Seq<f64>, h: f64, k: int)
+    requires 0 <= k <= a.len(), forall|i: int| 0 <= i < a.len() ==> rv(#[trigger] a[i]) >= 0real,
+        forall|i: int| 0 <= i < a.len() ==> (rv(#[trigger] a[i]) > 0real ==> rv(a[i]) > rv(h)),
+    ensures surv_sum(a, h, k) == rsum(a, k),
+    decreases k
+{ if k > 0 { lemma_surv_all(a, h, k - 1); } }
+pub proof fn lemma_low_threshold_noop(a: Seq<f64>, b: Seq<f64>, thresh: f64)
+    requires dist(a), post(a, thresh, b),
+        forall|i: int| 0 <= i < a.len() ==> (rv(#[trigger] a[i]) > 0real ==> rv(a[i]) > rv(thresh)),
+    ensures
+        // a threshold below every positive probability changes nothing (idealised reals)
+        forall|i: int| 0 <= i < a.len() ==> rv(#[trigger] b[i]) == rv(a[i]), // @ob C18.V.truncate.low_threshold_noop
+{
+    let n = a.len() as int;
+    lemma_surv_all(a, thresh, n);
+    assert forall|i: int| 0 <= i < n implies rv(#[trigger] b[i]) == rv(a[i]) by {
+        let y = rv(a[i]);
+        assert(y / 1real == y) by(nonlinear_arith);
+    }
+}
 pub proof fn lemma_truncate_idempotent(a: Seq<f64>, b: Seq<f64>, c: Seq<f64>, thresh: f64)
     requires dist(a), post(a, thresh, b), post(b, thresh, c),
     ensures
